@@ -73,13 +73,14 @@ func runC19(p *Prog, r *Report) {
 	r.Explain = append(r.Explain, "R-RO: with the `tables` parameter of WriteTTF as root, no store, copy/append destination, Put* destination or other mutation in any function targets memory derived from it (an append whose first operand is caller memory may write into its spare capacity).")
 	ruleReadOnlyParam(p, r, "R-RO", p.Func("font/opentype", "", "WriteTTF"), "tables")
 	r.Explain = append(r.Explain, "R-DIR: the directory entry written by WriteTTF agrees with the one read by readOTFEntry: at each offset the reader assigns to Tag/CheckSum/Offset/Length, the writer stores a 32-bit value of that role (the table's Tag, the checksum of that table's Content, the running offset, len(Content)); the running offset of the directory loop and of the body copy loop are the same recurrence; numTables is written where readOTFHeader reads it.")
-	ruleDir(p, r, dirCfg{pkg: "font/opentype", writer: "WriteTTF", hdrWriter: "writeTTFHeader", reader: "readOTFEntry", hdrReader: "readOTFHeader",
+	ruleDir(p, r, dirCfg{versionFromTables: true, pkg: "font/opentype", writer: "WriteTTF", hdrWriter: "writeTTFHeader", reader: "readOTFEntry", hdrReader: "readOTFHeader",
 		entryType: "otfEntry", tableType: "Table", checksum: "checksum"})
 	r.Assumptions = append(r.Assumptions, "encoding/binary.BigEndian Put*/Uint* are trusted", "checksum arithmetic, searchRange/entrySelector/rangeShift values and absence of uint32 overflow of offsets are NOT decided")
 	r.NotDecided = append(r.NotDecided, "numeric correctness of checksums and header search fields", "byte-for-byte round trip through the Loader")
 }
 
 type dirCfg struct {
+	versionFromTables bool // also require the version tag of the header to be computed from the tables
 	pkg, writer, hdrWriter, reader, hdrReader, entryType, tableType, checksum string
 }
 
@@ -195,6 +196,44 @@ func ruleDir(p *Prog, r *Report, c dirCfg) {
 		}
 	}
 	r.Floor(rule+"(writer items)", len(written), 4)
+	// the version tag: one 32-bit store at offset 0 of the file (the whole buffer, in the writer or in a callee that
+	// receives it) carries a value computed from the tables — a constant tag cannot be right for both outline formats
+	if c.versionFromTables {
+		key := c.writer + "/version tag"
+		r.Instance(rule, key)
+		fromTables := false
+		n0 := 0
+		var scan func(f *ssa.Function, depth int)
+		scan = func(f *ssa.Function, depth int) {
+			for _, b := range f.Blocks {
+				for _, in := range b.Instrs {
+					name, cc := binaryCall(in)
+					if cc != nil && widthOf(name) == 4 && name[0] == 'P' {
+						args := cc.Args
+						dst, val := args[len(args)-2], args[len(args)-1]
+						base, off, okc := sliceLow(dst)
+						if _, isWin := base.(*ssa.Slice); okc && off == 0 && !isWin {
+							n0++
+							if _, isConst := stripConv(val).(*ssa.Const); !isConst && derivesFrom(val, func(x ssa.Value) bool {
+								pa, ok := x.(*ssa.Parameter)
+								return ok && pa.Parent() == writer
+							}, 0) {
+								fromTables = true
+							}
+						}
+						continue
+					}
+					if call, ok := in.(*ssa.Call); ok && depth < 1 {
+						if sc := call.Common().StaticCallee(); sc != nil && sc.Blocks != nil && fnPkg(sc) == fnPkg(writer) {
+							scan(sc, depth+1)
+						}
+					}
+				}
+			}
+		}
+		scan(writer, 0)
+		r.Check(n0 > 0 && fromTables, rule, key, p.Pos(writer.Pos()), fmt.Sprintf("the version tag at offset 0 of the file is computed from the tables (%d store(s) at that offset): 'OTTO' for CFF outlines, 0x00010000 otherwise", n0))
+	}
 	tableT := p.Named(c.pkg, c.tableType)
 	isFieldOfTable := func(v ssa.Value, name string) bool {
 		return derivesFrom(v, func(x ssa.Value) bool {
